@@ -227,8 +227,11 @@ fn explicit_pad_member(names: &mut Names, ch: &mut Ch, bytes: u32) -> Vec<Member
 pub fn gen_host_struct(ch: &mut Ch, p: &Profile, names: &mut Names, structs: &[StructDef], allow_rt: bool) -> StructDef {
     let name = names.fresh(ch, "St", p.nonascii);
     let n = ch.usize_range(p.members.0.max(1), p.members.1.max(1));
-    // nested structs must be sized (no rt arrays)
-    let nest_ok: Vec<usize> = (0..structs.len()).filter(|i| !Ty::St(*i).has_rt_array(structs)).collect();
+    // nested structs must be sized (no rt arrays). A struct whose alignment comes from an explicit
+    // @align is not nested either: naga 24 loses the attribute when it lays out the outer struct
+    // (known finding K5, covered by a canary)
+    let nest_ok: Vec<usize> =
+        (0..structs.len()).filter(|i| !Ty::St(*i).has_rt_array(structs) && !(p.avoid_known && structs[*i].members.iter().any(|m| m.align_attr.is_some()))).collect();
     let mut members = Vec::new();
     // "explicit padding" mode: insert pad members so that the repr(C) layout of plain arrays matches WGSL
     let pad_mode = ch.chance(2, 8);
@@ -616,7 +619,11 @@ fn gen_buffer(ch: &mut Ch, p: &Profile, sh: &Shader) -> GKind {
     let ty = if use_struct && !host_structs.is_empty() {
         Ty::St(*ch.pick(&host_structs))
     } else {
-        let nest_ok: Vec<usize> = host_structs.iter().copied().filter(|i| !Ty::St(*i).has_rt_array(&sh.structs)).collect();
+        let nest_ok: Vec<usize> = host_structs
+            .iter()
+            .copied()
+            .filter(|i| !Ty::St(*i).has_rt_array(&sh.structs) && !(p.avoid_known && sh.structs[*i].members.iter().any(|m| m.align_attr.is_some())))
+            .collect();
         let mut t = gen_sized_ty(ch, &tp_nobool, &sh.structs, &nest_ok, 0);
         if matches!(t, Ty::At(_)) {
             // a bare atomic as the type of a binding is outside the generator's supported set
@@ -869,6 +876,10 @@ pub fn gen_shader(ch: &mut Ch, p: &Profile) -> Shader {
         (0..n_host).filter(|i| !Ty::St(*i).has_rt_array(&sh.structs) && !Ty::St(*i).has_atomic(&sh.structs)).collect();
     let push_ok: Vec<usize> = sized_no_atomic.iter().copied().filter(|i| !Ty::St(*i).has_scalar(Sc::Bool, &sh.structs) && !Ty::St(*i).has_scalar(Sc::F64, &sh.structs)).collect();
     let sized: Vec<usize> = (0..n_host).filter(|i| !Ty::St(*i).has_rt_array(&sh.structs)).collect();
+    // element/nesting candidates exclude structs aligned by an explicit @align (known finding K5)
+    let k5 = |i: &usize| !(p.avoid_known && sh.structs[*i].members.iter().any(|m| m.align_attr.is_some()));
+    let sized_nest: Vec<usize> = sized.iter().copied().filter(|i| k5(i)).collect();
+    let sized_no_atomic_nest: Vec<usize> = sized_no_atomic.iter().copied().filter(|i| k5(i)).collect();
     if ch.chance(p.push, 8) {
         let ty = if !push_ok.is_empty() && ch.flip() {
             Ty::St(*ch.pick(&push_ok))
@@ -888,13 +899,13 @@ pub fn gen_shader(ch: &mut Ch, p: &Profile) -> Shader {
         } else {
             let mut tp = p.ty.clone();
             tp.atomic = false;
-            gen_sized_ty(ch, &tp, &sh.structs, &sized_no_atomic, 0)
+            gen_sized_ty(ch, &tp, &sh.structs, &sized_no_atomic_nest, 0)
         };
         sh.globals.push(Global { name: names.fresh(ch, "prv_", p.nonascii), kind: GKind::Buf { space: Space::Private, ty }, binding: None });
     }
     let has_compute_possible = p.entries[2].1 > 0;
     if has_compute_possible && ch.chance(p.workgroup, 8) {
-        let ty = if !sized.is_empty() && ch.flip() { Ty::St(*ch.pick(&sized)) } else { gen_sized_ty(ch, &p.ty, &sh.structs, &sized, 0) };
+        let ty = if !sized.is_empty() && ch.flip() { Ty::St(*ch.pick(&sized)) } else { gen_sized_ty(ch, &p.ty, &sh.structs, &sized_nest, 0) };
         sh.globals.push(Global { name: names.fresh(ch, "wg_", p.nonascii), kind: GKind::Buf { space: Space::Workgroup, ty }, binding: None });
     }
 
